@@ -209,6 +209,15 @@ func (b *broker) publish(pub *wamp.Session, msg *wamp.Publish) {
 
 		// Let's check: was ppt feature announced by publisher?
 		if !pub.HasFeature(wamp.RolePublisher, wamp.FeaturePayloadPassthruMode) {
+			if pub.ID == metaID {
+				// Published by the realm itself on behalf of a client (a
+				// testament with ppt options). There is no peer to abort,
+				// and the meta session must never be ended: without it no
+				// session can join or leave the realm. Drop the publication.
+				b.log.Println("Dropped publication to", msg.Topic,
+					"from meta session:", ErrPPTNotSupportedByPeer)
+				return
+			}
 			// It's protocol violation, so we need to abort connection.
 			abortMsg := wamp.Abort{Reason: wamp.ErrProtocolViolation}
 			abortMsg.Details = wamp.Dict{}
